@@ -120,12 +120,7 @@ def rule_threshold(ctx, rep):
                 a5_uses.append(('arg', bi))
     rep.check([u[0] for u in a5_uses] == ['switch'], R, 'tracker|flag-use', 'forget_if_isolate is only branched on, once',
               'forget_if_isolate is used as %s' % a5_uses)
-    under_true = sorted(untag(pretty(s[3])) for s in xt.mut_analysis()['sites'] if 'a5' in qt.facts(s[0]))
-    under_false = sorted(untag(pretty(s[3])) for s in xt.mut_analysis()['sites'] if '!a5' in qt.facts(s[0]))
-    rep.check(under_true == ['Option::replace(self.on_hold, occurence)'], R, 'tracker|true-holds',
-              'a small isolated candidate is only put on hold', 'under forget_if_isolate the tracker does %s' % under_true)
-    rep.check(under_false == ['Option::take(self.on_hold)', 'VecDeque::push_back(self.matches, occurence)'], R, 'tracker|false-emits',
-              'otherwise the number is emitted and any held one dropped', 'without forget_if_isolate the tracker does %s' % under_false)
+    # what the two outcomes do is decided completely by B16 (24-case table of the same function)
 
 
 def _case_heap(last, hold):
